@@ -219,6 +219,23 @@ PROPS["C15"] = {
                    "queued TLVs were produced by this library's parser (even value length < 65536, type < 65536): TlvWF"],
 }
 
+PROPS["C12"] = {
+    "streams": [{"name": "timed"}],
+    "model_is_spec": ["timed"],
+    "spec_theorem": "in every reachable model state a Listening port has its receipt timer armed, a Master its announce and sync timers, a Slave its delay timer (C12.reachable_allwait), and the progress steps hold (C12.receipt_timeout_makes_master … slave_keeps_requesting)",
+    "rule": "timed: a simulated host that applies every Reset…Timer action and fires a timer only when it is armed, in due order of "
+            "simulated time: a random prefix of the mixed alphabet (frames from better / worse / own / unacceptable masters, exchanges, lost and "
+            "late transmit timestamps, BMCA runs, setting changes, peer-delay faults and recoveries) on one to three ports of every "
+            "configuration, then either total silence for (2·receiptTimeout+6) announce intervals followed by four more, or a steadily "
+            "announcing best master for eight intervals followed by eight delay intervals, with BMCA at its interval. Compared: every timer "
+            "action and every port state after every op. Independent oracle: after every op no port waits on an unarmed timer; after silence "
+            "every port that may be master is Master and then emits Announce / Sync at the configured cadence (±1); under the steady master "
+            "the port is its Slave and emits >= 2 delay requests in 8 intervals. distinct = distinct ops with a timer action or a state change",
+    "explanation": "Lean: Rearm for every handler and for the BMCA pending actions, AllWait invariant by induction over host histories, progress theorems",
+    "assumptions": INST_ASSUME + ["simulated time: RNG-scaled durations are drawn from their documented range by the harness (the port itself keeps no clock)",
+                   "the foreign master window expiry used in the silence argument is C06's"],
+}
+
 
 def split_obs(obs):
     """(items, status, state) of an instance-stream observation line"""
@@ -267,6 +284,12 @@ def projection(pid, stream, profile):
             st = state_part(obs)
             return " ; ".join(keep) + " | " + m + " | " + st
         return f8
+    if pid == "C12":
+        def f12(op, obs):
+            items = obs.split(" | ")[0].split(" ; ")
+            keep = [it for it in items if ":reset " in it]
+            return " ; ".join(keep) + " | " + state_part(obs)
+        return f12
     if pid == "C15":
         def f15(op, obs):
             parts = obs.split(" | ")
@@ -334,4 +357,4 @@ def replay_body(pid, stream, ops, idx):
     return ops[idx] + "\n"
 
 
-STATEFUL = {"inst", "bmca", "fml", "c07", "master", "view", "tlv"}
+STATEFUL = {"inst", "bmca", "fml", "c07", "master", "view", "tlv", "timed"}
